@@ -4,7 +4,7 @@
 (* proxy_conn.go:343-358 (Upgrade re-added), http_proxy.go setEmptyUserAgent.          *)
 (* A message head is a sequence of fields [n: lower-case name, v: value]; the client's  *)
 (* head is a selection of items of a pool, each item contributing one or more lines.    *)
-EXTENDS Integers, Sequences, FiniteSets, TLC, Json, SequencesExt, Randomization
+EXTENDS Integers, Sequences, FiniteSets, FiniteSetsExt, TLC, Json, SequencesExt, Randomization
 
 CONSTANTS MaxItems,    \* at most this many pool items per request
           Sample       \* 0 = all selections, else random subset
@@ -59,7 +59,8 @@ Conflict(S) == \/ (S \cap UpgradeItems # {} /\ S \cap {12, 6} # {}) \/ Cardinali
                \/ Cardinality(S \cap {22, 26}) > 1 \/ Cardinality(S \cap {21, 27}) > 1
                \/ Cardinality(S \cap {5, 31, 32, 33}) > 1
                \/ Cardinality(S \cap {19, 28}) > 1 \/ Cardinality(S \cap {18, 29}) > 1 \/ Cardinality(S \cap {20, 30}) > 1
-Selections == {S \in SUBSET Items : Cardinality(S) <= MaxItems /\ ~Conflict(S)}
+\* (by cardinality: SUBSET Items has 2^33 members)
+Selections == {S \in UNION {kSubset(k, Items) : k \in 0..MaxItems} : ~Conflict(S)}
 
 RECURSIVE Flatten(_, _)
 Flatten(S, i) == IF i > Len(Pool) THEN <<>> ELSE (IF i \in S THEN Pool[i].fs ELSE <<>>) \o Flatten(S, i + 1)
